@@ -117,6 +117,14 @@ theorem periodAt_spec (p : SqP) (hp : 0 < p.period) (k : Nat) :
     · have : m - 1 + 1 = m := by omega
       rw [this]; exact hs
 
+/-- The period in progress is unique. -/
+theorem periodAt_unique (p : SqP) (hp : 0 < p.period) (k : Nat) (i : Int)
+    (h1 : p.startOf i ≤ (k : Int)) (h2 : (k : Int) < p.startOf (i + 1)) : i = p.periodAt k := by
+  have hs := periodAt_spec p hp k
+  have a := lt_of_startOf_lt p (le_of_lt hp) (show p.startOf i < p.startOf (p.periodAt k + 1) by omega)
+  have b := lt_of_startOf_lt p (le_of_lt hp) (show p.startOf (p.periodAt k) < p.startOf (i + 1) by omega)
+  omega
+
 /-! ### One pass of the stride loop -/
 
 theorem setSlice_length (l : List α) (a : Nat) (v : List α) (h : a + v.length ≤ l.length) :
@@ -351,5 +359,43 @@ theorem squareWave_eq_slice (tukey : Nat → α) (low : α) (p : SqP) (hp : 0 < 
     apply List.getElem?_eq_none
     rw [squareLoop_length tukey p off n _ _ _ (by simp)]
     omega
+
+/-- Once the break test is reached within `fuel` passes, more fuel changes nothing: the fuel-bounded
+loop is the `while True` loop. -/
+theorem squareLoop_extra_fuel (tbl : List α) (p : SqP) (off n : Nat) (extra : Nat) :
+    ∀ (fuel : Nat) (i : Int) (env : List α), 1 ≤ fuel →
+      p.period * ((i + (fuel : Int) : Int) : Rat) - (off : Rat) > (n : Rat) →
+      squareLoop tbl p off n (fuel + extra) i env = squareLoop tbl p off n fuel i env := by
+  intro fuel
+  induction fuel with
+  | zero => intro i env h; omega
+  | succ fuel ih =>
+    intro i env _ hf
+    rw [show fuel + 1 + extra = (fuel + extra) + 1 by omega]
+    simp only [squareLoop]
+    split
+    · rfl
+    · rename_i hnb
+      cases fuel with
+      | zero =>
+        exfalso; apply hnb
+        simpa using hf
+      | succ f =>
+        apply ih _ _ (by omega)
+        have : i + 1 + ((f + 1 : Nat) : Int) = i + ((f + 1 + 1 : Nat) : Int) := by push_cast; omega
+        rw [this]; exact hf
+
+/-- Without the (unwritten) guard `fm_samples > 0` the break test is never true: for a negative
+period every `fm_samples * i_period - offset` after the first pass is negative. -/
+theorem no_break_of_neg_period (p : SqP) (hp : p.period < 0) (off n : Nat) (t : Nat) (ht : 1 ≤ t) :
+    ¬ (p.period * (((((off : Rat) / p.period).floor + (t : Int) : Int)) : Rat) - (off : Rat) > (n : Rat)) := by
+  have h1 : (off : Rat) / p.period < ((((off : Rat) / p.period).floor : Int) : Rat) + 1 := Int.lt_floor_add_one _
+  rw [div_lt_iff_of_neg hp] at h1
+  generalize ((off : Rat) / p.period).floor = a at h1
+  have ht' : (1 : Rat) ≤ (t : Rat) := by exact_mod_cast ht
+  have hn : (0 : Rat) ≤ (n : Rat) := by positivity
+  push_cast
+  intro hc
+  nlinarith
 
 end Psi.Stim
